@@ -14,3 +14,7 @@ def check(ctx):
     ctx.assume("token types are unique within a mode (lookaheads are keyed by terminal id)")
     kernel.analyze(ctx, RULES)
     cursor.analyze(ctx, {"C04.c"})
+    kernel.lookahead_wiring(ctx, ("C04.f",))
+    from .common import cache_foundation, language_foundation
+    language_foundation(ctx)
+    cache_foundation(ctx)
